@@ -428,14 +428,14 @@ func (c *Cluster) dagReplay(variants int) {
 	c.stats.probeMax("dagreplay-events-max", len(base))
 	c.encodingChecksFinal(ref)
 	for vi := 0; vi < variants; vi++ {
-		kind := []string{"order", "order", "subdag", "store", "cache", "batch", "delay", "delay", "smallbadger", "smallbadger"}[r.Intn(10)]
+		kind := []string{"order", "order", "subdag", "store", "cache", "batch", "delay", "delay", "smallbadger", "smallbadger", "latepass"}[r.Intn(11)]
 		if c.synthetic && r.Bool(0.5) {
 			kind = "delay"
 			if c.cfg.Profile != "C01" && r.Bool(0.5) {
 				kind = "smallbadger"
 			}
 		}
-		if c.cfg.Profile == "C01" && (kind == "batch" || kind == "subdag") {
+		if c.cfg.Profile == "C01" && (kind == "batch" || kind == "subdag" || kind == "latepass") {
 			// nodes always run a consensus pass per inserted event; batching is C03's subject
 			kind = "order"
 		}
@@ -445,6 +445,7 @@ func (c *Cluster) dagReplay(variants int) {
 		var subset map[string]bool
 		whole := true
 		batch := 1
+		latePass := 0
 		switch kind {
 		case "subdag":
 			subset = c.dag.downwardClosed(r, base)
@@ -462,6 +463,15 @@ func (c *Cluster) dagReplay(variants int) {
 		case "cache":
 			// from the in-flight window up to the default
 			cache = maxInt(4*window+20*len(c.genesisSet)+50, 200) + r.Intn(500)
+		case "latepass":
+			// rounds are divided after every insertion (so the known finding about
+			// batched insertions does not apply), but fame, round-received and block
+			// production only run every k insertions
+			if !static {
+				kind = "order"
+			} else {
+				latePass = []int{2, 3, 7, 20, 1 << 30}[r.Intn(5)]
+			}
 		case "batch":
 			if !static {
 				kind = "order"
@@ -477,7 +487,7 @@ func (c *Cluster) dagReplay(variants int) {
 		if !c.synthetic {
 			nearVariants = 2 // harvested histories keep most variants for orders, sub-DAGs, stores, caches
 		}
-		if !c.synthetic && whole && (vi == 2 || vi == 3) && batch == 1 {
+		if !c.synthetic && whole && (vi == 2 || vi == 3) && batch == 1 && latePass == 0 {
 			// the order in which one of the real nodes of the run inserted the events
 			// (a genuine lagging view), completed with what that node never received
 			if vo := c.nodeViewOrder(r, base); vo != nil {
@@ -495,6 +505,7 @@ func (c *Cluster) dagReplay(variants int) {
 				kind = "near-late"
 			}
 			batch = 1
+			latePass = 0
 			order = c.dag.prioritised(r, base, c.synthNears[vi/2][vi%2])
 			name = fmt.Sprintf("%s#%d", kind, vi)
 			// these orders hold far more events in flight than the reference order the
@@ -502,11 +513,17 @@ func (c *Cluster) dagReplay(variants int) {
 			cache = 10000
 		}
 		c.stats.fault("insertion-order-variant")
-		name = fmt.Sprintf("%s[%s cache=%d batch=%d events=%d/%d window=%d]", name, storeKind, cache, batch, len(order), len(base), window)
+		name = fmt.Sprintf("%s[%s cache=%d batch=%d latepass=%d events=%d/%d window=%d]", name, storeKind, cache, batch, latePass, len(order), len(base), window)
 		v := c.newInstance(name, storeKind, cache)
 		c.stats.probe("dagreplay-variant:" + kind)
 		for i, e := range order {
-			if batch > 1 {
+			if latePass > 1 {
+				v.insertOnly(e)
+				v.divide()
+				if (i+1)%latePass == 0 {
+					v.latePass()
+				}
+			} else if batch > 1 {
 				v.insertOnly(e)
 				if (i+1)%batch == 0 {
 					v.pass()
@@ -514,6 +531,10 @@ func (c *Cluster) dagReplay(variants int) {
 			} else {
 				v.insert(e)
 			}
+		}
+		if latePass > 1 {
+			v.latePass()
+			v.latePass()
 		}
 		if batch > 1 {
 			v.pass()
@@ -679,4 +700,28 @@ func (c *Cluster) nodeViewOrder(r *RNG, base []*DagEvent) []*DagEvent {
 	}
 	c.stats.probe("dagreplay-node-view-order")
 	return out
+}
+
+// divide runs DivideRounds only (rounds, witnesses, Lamport timestamps).
+func (in *instance) divide() {
+	if in.err != nil {
+		return
+	}
+	if err := in.h.DivideRounds(); err != nil {
+		in.err = fmt.Errorf("divide rounds: %v", err)
+	}
+}
+
+// latePass runs the passes that follow DivideRounds.
+func (in *instance) latePass() {
+	if in.err != nil {
+		return
+	}
+	for _, f := range []func() error{in.h.DecideFame, in.h.DecideRoundReceived, in.h.ProcessDecidedRounds, in.h.ProcessSigPool} {
+		if err := f(); err != nil {
+			in.err = fmt.Errorf("consensus pass: %v", err)
+			return
+		}
+	}
+	in.noteSetChanges()
 }
